@@ -69,6 +69,8 @@ def judge(case, im, mo):
         if name != case['names'][mid]:
             fail.append('row: row %d names %s but carries index %d' % (i, name, mid))
             continue
+        if any(x == 0 for x in case['flux'][mid]):
+            continue      # a model without flux in some band: log flux -inf, outside C01's quantifier (C04 judges its place in the ranking)
         r = res[mid]
         av_m, sc_m, chi_m, pred_m = r
         av_i, sc_i, chi_i = F(im['av'][i]), F(im['sc'][i]), im['chi2'][i]
